@@ -89,7 +89,7 @@ theorem C14_plugin_dir_files (st : Index) (dir p : Path) (h : p ∈ st.pluginDir
 
 theorem importStep_no_mark (acc : ScanAcc) (t : Path) :
     (importStep false acc t).st = acc.st ∧ (importStep false acc t).re = acc.re ∧
-    (importStep false acc t).processed = acc.processed ∧ (importStep false acc t).rewalk = acc.rewalk := by
+    (importStep false acc t).processed = acc.processed := by
   simp [importStep]
 
 /-- an unmarked step never touches the plugin marks; a marking step adds exactly the target -/
@@ -150,7 +150,7 @@ theorem C14_plugin_mark_propagation (f : Path) (acc : ScanAcc) (hnot : acc.st.pl
           rw [h1, h2]
           cases a.st.resolveModule i.modulePath f with
           | none => exact ⟨rfl, rfl⟩
-          | some t => exact ⟨(importStep_no_mark a t).1, (importStep_no_mark a t).2.2.1⟩
+          | some t => exact ⟨(importStep_no_mark a t).1, (importStep_no_mark a t).2.2⟩
       have hfold2 : ∀ (ms : List String) (a : ScanAcc),
           (ms.foldl (fun acc m =>
             match acc.st.resolveModule m f with
@@ -172,7 +172,7 @@ theorem C14_plugin_mark_propagation (f : Path) (acc : ScanAcc) (hnot : acc.st.pl
           rw [h1, h2]
           cases a.st.resolveModule i f with
           | none => exact ⟨rfl, rfl⟩
-          | some t => exact ⟨(importStep_no_mark a t).1, (importStep_no_mark a t).2.2.1⟩
+          | some t => exact ⟨(importStep_no_mark a t).1, (importStep_no_mark a t).2.2⟩
       obtain ⟨a1, a2⟩ := hfold1 fr.imports acc
       obtain ⟨b1, b2⟩ := hfold2 fr.plugins (fr.imports.foldl (fun acc imp =>
             match acc.st.resolveModule imp.modulePath f with
